@@ -221,6 +221,7 @@ class PosDomain:
     set, a join keeps what holds on both paths."""
 
     LOST = frozenset({"<lost>"})
+    UNLOC = frozenset({"<unlocated>"})   # (the flow engine reads a None state as unreachable, so "not yet located" is a value)
 
     def __init__(self, fi, nm, childp, swap_of):
         self.fi, self.nm, self.childp, self.swap_of = fi, nm, childp, swap_of
@@ -231,10 +232,14 @@ class PosDomain:
             return b
         if b is None:
             return a
+        if a == self.UNLOC:
+            return b
+        if b == self.UNLOC:
+            return a
         return (a & b) or self.LOST
 
     def enter_function(self, fi, st, flow):
-        return None
+        return self.UNLOC
 
     def assume_atom(self, test, outcome, st):
         return st
@@ -243,7 +248,7 @@ class PosDomain:
         return st
 
     def _kill(self, st, name):
-        if st is None:
+        if st is None or st == self.UNLOC:
             return st
         import re as _re
         return frozenset(e for e in st if not _re.search(r"\b" + _re.escape(name) + r"\b", e)) or self.LOST
@@ -264,7 +269,7 @@ class PosDomain:
         sw = self.swap_of(s)
         if sw is not None:
             a, b = norm(sw[0]), norm(sw[1])
-            if st is None:
+            if st is None or st == self.UNLOC:
                 return st
             if a in st:
                 return frozenset({b})
@@ -277,7 +282,7 @@ class PosDomain:
             if isinstance(v, ast.Call) and isinstance(v.func, ast.Attribute) and v.func.attr == "index" and _is_children(self.nm, v.func.value) \
                     and v.args and isinstance(v.args[0], ast.Name) and v.args[0].id == self.childp:
                 return frozenset({x})
-            if st is None:
+            if st is None or st == self.UNLOC:
                 return st
             was = norm(v) in st
             out = self._kill(st, x)
@@ -285,7 +290,7 @@ class PosDomain:
                 out = (out - self.LOST) | {x}
             return frozenset(out)
         if isinstance(s, ast.AugAssign) and isinstance(s.target, ast.Name) and isinstance(s.op, (ast.Add, ast.Sub)) and isinstance(s.value, ast.Constant) \
-                and isinstance(s.value.value, int) and st is not None:
+                and isinstance(s.value.value, int) and st is not None and st != self.UNLOC:
             x = s.target.id
             c = s.value.value if isinstance(s.op, ast.Add) else -s.value.value
             out = set()
@@ -394,15 +399,17 @@ def rule_r2(ctx, rep):
     dom = PosDomain(fi, nm, childp, lambda st_: swaps.get(id(st_)))
     flow = Flow(fi, dom, ctx.hier, lambda e: resolve_exc_class(ctx.prog, fi.module, e) or "Exception")
     dom.flow = flow
-    flow.run(None)
+    flow.run(PosDomain.UNLOC)
+    rep.count("return paths of shift", len(flow.returns))
     for (r, st) in flow.returns:
-        ok = st is not None and st != PosDomain.LOST and r.value is not None and norm(r.value) in st
+        ok = st is not None and st not in (PosDomain.LOST, PosDomain.UNLOC) and r.value is not None and norm(r.value) in st
         rep.oblige(("R2ii", norm(r)), ok, sample={"return": norm(r), "expressions known to be the child's position": sorted(st) if st else None})
         if not ok:
-            where = ", ".join(sorted(st)) if st and st != PosDomain.LOST else "unknown"
+            where = ", ".join(sorted(st)) if st and st not in (PosDomain.LOST, PosDomain.UNLOC) else "unknown"
             rep.add("R2", fi.qname, r, f"on some path `{norm(r.value) if r.value is not None else 'None'}` is returned while the child sits at position "
                     f"`{where}`: shift reports a stale index", fi.loc(r))
     rep.floor("swaps in shift", 1)
+    rep.floor("return paths of shift", 1)
     # both failures precede every write
     writes = [n for n in ast.walk(fi.node) if isinstance(n, ast.Assign) and any(isinstance(t, (ast.Subscript, ast.Tuple)) for t in n.targets)]
     writes += [n for (n, _a, _b) in cand if n not in writes]
